@@ -64,6 +64,22 @@ pub(crate) fn bbox_write_z_range_to<PointType: HasZ, W: Write>(
     Ok(())
 }
 
+/// Counts and lengths are read from the file as `i32`: a negative one is invalid data
+pub(crate) fn non_negative(count: i32) -> Result<usize, std::io::Error> {
+    usize::try_from(count).map_err(|_| {
+        std::io::Error::new(
+            std::io::ErrorKind::InvalidData,
+            "negative count in shape record",
+        )
+    })
+}
+
+/// Does the size announced by the record header equal the size computed from the
+/// counts of the record? (compared without truncating either of them)
+pub(crate) fn size_matches(record_size: i32, size: usize) -> bool {
+    i64::from(record_size) == size as i64
+}
+
 pub(crate) fn read_xy_in_vec_of<PointType, T>(
     source: &mut T,
     num_points: i32,
@@ -72,7 +88,7 @@ where
     PointType: HasMutXY + Default,
     T: Read,
 {
-    let mut points = Vec::<PointType>::with_capacity(num_points as usize);
+    let mut points = Vec::<PointType>::with_capacity(non_negative(num_points)?);
     for _ in 0..num_points {
         let mut p = PointType::default();
         *p.x_mut() = source.read_f64::<LittleEndian>()?;
@@ -106,7 +122,7 @@ pub(crate) fn read_parts<T: Read>(
     source: &mut T,
     num_parts: i32,
 ) -> Result<Vec<i32>, std::io::Error> {
-    let mut parts = Vec::<i32>::with_capacity(num_parts as usize);
+    let mut parts = Vec::<i32>::with_capacity(non_negative(num_parts)?);
     for _ in 0..num_parts {
         parts.push(source.read_i32::<LittleEndian>()?);
     }
@@ -169,7 +185,6 @@ impl Iterator for PartIndexIter<'_> {
                 .copied()
                 .unwrap_or(self.num_points);
             self.current_part_index += 1;
-            debug_assert!(end_of_part_index >= start_of_part_index);
             Some((start_of_part_index, end_of_part_index))
         } else {
             None
@@ -201,8 +216,9 @@ impl<'a, PointType: Default + HasMutXY, R: Read> MultiPartShapeReader<'a, PointT
         bbox_read_xy_from(&mut bbox, source)?;
         let num_parts = source.read_i32::<LittleEndian>()?;
         let num_points = source.read_i32::<LittleEndian>()?;
+        non_negative(num_points)?;
         let parts_array = read_parts(source, num_parts)?;
-        let parts = Vec::<Vec<PointType>>::with_capacity(num_parts as usize);
+        let parts = Vec::<Vec<PointType>>::with_capacity(non_negative(num_parts)?);
         Ok(Self {
             num_points,
             num_parts,
@@ -215,7 +231,9 @@ impl<'a, PointType: Default + HasMutXY, R: Read> MultiPartShapeReader<'a, PointT
 
     pub(crate) fn read_xy(mut self) -> std::io::Result<Self> {
         for (start_index, end_index) in PartIndexIter::new(&self.parts_array, self.num_points) {
-            let num_points_in_part = end_index - start_index;
+            // The parts offsets come from the file: they may not be ascending
+            // (a negative length is reported by `read_xy_in_vec_of`)
+            let num_points_in_part = end_index.checked_sub(start_index).unwrap_or(-1);
             self.parts
                 .push(read_xy_in_vec_of(self.source, num_points_in_part)?);
         }
